@@ -7,9 +7,10 @@ import WcModel.Proofs.GlobSplitShape
   without finding a split point: separators are only found BETWEEN the segments.  Token by token
   (`TS`, top level; `EG`, inside an extended group, where `parse_extend` runs), as in
   `PassPrintPath`, for the printable fragment `pp false g`, slash-free, with the look-ahead
-  conditions `ok g rest`, and — this one is FORCED, see `posix_split_defect` in
-  `Properties/C04bridge.lean` — without POSIX classes in brackets (`noPosix`): `_GlobSplit._sequence`
-  does not know `[:alpha:]`, it ends the bracket at the `]` of the class.
+  conditions `ok g rest`, and without POSIX classes in brackets (`noPosix`).  That hypothesis was FORCED
+  when this file was written — `_GlobSplit._sequence` did not know `[:alpha:]` and ended the bracket at
+  the `]` of the class: D34, found here, repaired by 421a2e4, `D34_bridge_fixed_witness` in
+  `Properties/C04bridge.lean`; it is kept because the induction below follows plain members only.
 -/
 namespace WcModel.Bridge
 open PP PPP GSplit
@@ -68,7 +69,7 @@ theorem scan'_slash (F i : Nat) (r : List Char) :
 /-! ### brackets -/
 
 /-- a character `_sequence` steps over -/
-def safeC (c : Char) : Bool := c != ']' && c != '\\' && c != '/'
+def safeC (c : Char) : Bool := c != ']' && c != '\\' && c != '/' && c != '['
 
 theorem seqLoop_safe : ∀ (w : List Char) (c : Char) (j : Nat) (t : List Char) (F : Nat),
     safeC c = true → (∀ x ∈ w, safeC x = true) → w.length + 2 ≤ F →
@@ -80,7 +81,7 @@ theorem seqLoop_safe : ∀ (w : List Char) (c : Char) (j : Nat) (t : List Char) 
     obtain ⟨F1, rfl⟩ : ∃ F1, F = F1 + 2 := ⟨F - 2, by simp at hF; omega⟩
     simp only [safeC, Bool.and_eq_true, bne_iff_ne, ne_eq] at hc
     rw [GSplit.seqLoop]
-    simp only [hc.1.1, hc.1.2, hc.2, if_false, List.nil_append, It.next_cons]
+    simp only [hc.1.1.1, hc.1.1.2, hc.1.2, hc.2, if_false, List.nil_append, It.next_cons]
     rw [GSplit.seqLoop]
     simp
   | cons d w ih =>
@@ -88,7 +89,7 @@ theorem seqLoop_safe : ∀ (w : List Char) (c : Char) (j : Nat) (t : List Char) 
     obtain ⟨F1, rfl⟩ : ∃ F1, F = F1 + 1 := ⟨F - 1, by simp at hF; omega⟩
     simp only [safeC, Bool.and_eq_true, bne_iff_ne, ne_eq] at hc
     rw [GSplit.seqLoop]
-    simp only [hc.1.1, hc.1.2, hc.2, if_false, List.cons_append, It.next_cons]
+    simp only [hc.1.1.1, hc.1.1.2, hc.1.2, hc.2, if_false, List.cons_append, It.next_cons]
     rw [ih d (j + 1) t F1 (hw d List.mem_cons_self) (fun x hx => hw x (List.mem_cons_of_mem _ hx))
       (by simp at hF ⊢; omega)]
     simp only [List.length_cons]
@@ -109,7 +110,7 @@ def noPosix : Pat → Bool
 
 theorem plainMember_safe (c : Char) (h : plainMember c = true) (hs : c ≠ '/') : safeC c = true := by
   simp only [plainMember, Bool.and_eq_true, bne_iff_ne, ne_eq] at h
-  simp [safeC, h.1.1.1, h.2, hs]
+  simp [safeC, h.1.1.1, h.1.1.2, h.2, hs]
 
 theorem printCls_safe (m : SCls) (h1 : okM m = true) (h2 : memNoSl m = true) (h3 : noPosixM m = true) :
     ∀ x ∈ printCls m, safeC x = true := by
@@ -183,19 +184,22 @@ theorem sequence_print (neg : Bool) (items : List SCls) (hok : clsOK items = tru
     (hnp : items.all noPosixM = true) (j : Nat) (t : List Char) :
     GSplit.sequence ⟨j, clsBody neg items ++ ']' :: t⟩ = some ⟨j + (clsBody neg items).length + 1, t⟩ := by
   obtain ⟨c, w, hm, hc, hw, n1, n2, n3, n4⟩ := members_props items hok hsl hnp
+  have n5 : c ≠ ']' := by
+    simp only [safeC, Bool.and_eq_true, bne_iff_ne, ne_eq] at hc
+    exact hc.1.1.1
   unfold GSplit.sequence clsBody
   rw [hm]
   cases neg with
   | false =>
     simp only [Bool.false_eq_true, if_false, List.nil_append, List.cons_append, It.next_cons, Option.bind_eq_bind,
-      Option.bind_some, n1, n2, n3, n4, or_self]
+      Option.bind_some, n1, n2, n3, n4, n5, or_self]
     rw [seqLoop_safe w c (j + 1) t _ hc hw (by simp)]
     simp only [List.length_cons]
     congr 2
     omega
   | true =>
     simp only [if_true, List.cons_append, List.nil_append, It.next_cons, Option.bind_eq_bind,
-      Option.bind_some, n2, n3, n4, or_self, if_false]
+      Option.bind_some, n3, n4, n5, or_self, if_false, true_or]
     rw [seqLoop_safe w c (j + 1 + 1) t _ hc hw (by simp)]
     simp only [List.length_cons]
     congr 2
